@@ -118,6 +118,22 @@ class SchemaDeriver:
             return d
         return None
 
+    def annotated_field_info(self, mod: Module, ann: ast.expr | None):
+        """the Field(..) metadata of an Annotated[T, .., Field(..)] annotation (None when there is none)"""
+        if isinstance(ann, ast.Constant) and isinstance(ann.value, str):
+            try:
+                ann = ast.parse(ann.value, mode="eval").body
+            except SyntaxError:
+                return None
+        if not (isinstance(ann, ast.Subscript) and u(ann.value).split(".")[-1] == "Annotated" and isinstance(ann.slice, ast.Tuple)):
+            return None
+        out: dict = {}
+        for extra in ann.slice.elts[1:]:
+            fi = self.field_info(mod, extra)
+            if fi:
+                out.update(fi)
+        return out or None
+
     KNOWN_FIELD_KW = {"default", "default_factory", "title", "description", "discriminator", "frozen", "__mod__",
                       "ge", "gt", "le", "lt", "min_length", "max_length", "pattern", "multiple_of"}
 
@@ -330,6 +346,13 @@ class SchemaDeriver:
             mod = f.owner.module
             sch = self.ty(mod, f.node.annotation, refs)
             fi = self.field_info(mod, f.node.value)
+            afi = self.annotated_field_info(mod, f.node.annotation)
+            if afi and (fi is not None or f.node.value is None):
+                # x: Annotated[T, Field(default_factory=list)]  declares the same field as  x: T = Field(default_factory=list)
+                fi = {**afi, **(fi or {})}
+            elif afi and f.node.value is not None:
+                # a plain default next to Annotated metadata: the metadata without its own default
+                fi = {**{k: v for k, v in afi.items() if k not in ("default", "default_factory")}, "default": f.node.value}
             has_default = False
             default = None
             ftitle = f.name.replace("_", " ").title()
